@@ -1,4 +1,5 @@
-(* C03 -- the heap the probe produced: corpus/C03/nested_const.aelys
+(* C03 -- HISTORICAL defect witness (repaired in /repo ad6fcd1).  The heap the probe produced on the
+   tree before the repair: corpus/C03/nested_const.aelys
      fn outer() { fn inner() { return "hello-from-inner" } return inner() }
      println(outer())
    dumped by hx_gc (VM::verif_heap_audit / verif_roots) at the first safepoint of the run
@@ -106,55 +107,65 @@ Proof.
   - exact witness_get_str.
 Qed.
 
-Lemma witness_collect_frees :
-  exists h', collect witness_heap witness_roots = Some h' /\ get h' 134 = None
+(* before the repair (edges_old): the string is freed although it is reachable *)
+Lemma witness_old_collect_frees :
+  exists h', collect_with edges_old witness_heap witness_roots = Some h' /\ get h' 134 = None
              /\ get h' 135 = Some witness_fn /\ free h' = [134].
 Proof. eexists. split; [vm_compute; reflexivity|]. vm_compute. repeat split; reflexivity. Qed.
 
-Lemma witness_premise_fails :
-  ~ (forall j oj, get witness_heap j = Some oj -> incl (edges_spec oj) (edges_code oj)).
+Lemma witness_old_premise_fails :
+  ~ (forall j oj, get witness_heap j = Some oj -> incl (edges_spec oj) (edges_old oj)).
 Proof.
   intro H. specialize (H 135 witness_fn witness_get_fn 134).
   assert (Hin : In 134 (edges_spec witness_fn)) by (vm_compute; left; reflexivity).
   specialize (H Hin). vm_compute in H. exact H.
 Qed.
 
-Lemma nested_constants_refuted_lemma :
+Lemma old_mark_nested_constants_refuted_lemma :
   exists h roots i o h',
-    reachable_spec h roots i /\ get h i = Some o /\ collect h roots = Some h' /\ get h' i = None
-    /\ ~ (forall j oj, get h j = Some oj -> incl (edges_spec oj) (edges_code oj)).
+    reachable_spec h roots i /\ get h i = Some o
+    /\ collect_with edges_old h roots = Some h' /\ get h' i = None
+    /\ ~ (forall j oj, get h j = Some oj -> incl (edges_spec oj) (edges_old oj)).
 Proof.
-  destruct witness_collect_frees as (h' & Hc & Hg & _).
+  destruct witness_old_collect_frees as (h' & Hc & Hg & _).
   exists witness_heap, witness_roots, 134, witness_str, h'.
   split; [exact witness_reachable|]. split; [exact witness_get_str|]. split; [exact Hc|].
-  split; [exact Hg|exact witness_premise_fails].
+  split; [exact Hg|exact witness_old_premise_fails].
 Qed.
 
-(* what the program then observes: the next allocation (the function object for `outer`)
-   is placed under the dangling index, so `inner`'s "string" constant now reads a function *)
-Lemma witness_aliasing :
-  exists h' h2, collect witness_heap witness_roots = Some h'
+(* what the program then observed: the next allocation (the function object for `outer`) was
+   placed under the dangling index, so `inner`'s "string" constant read a function *)
+Lemma witness_old_aliasing :
+  exists h' h2, collect_with edges_old witness_heap witness_roots = Some h'
     /\ alloc h' (OFunction 1 (FnC [] [FnC [134] []])) = (h2, 134)
     /\ get h2 134 = Some (OFunction 1 (FnC [] [FnC [134] []])).
 Proof. eexists. eexists. split; [vm_compute; reflexivity|]. split; vm_compute; reflexivity. Qed.
 
-(* a heap on which the premise of collect_safe holds although a function has nested constants *)
+(* after the repair (the collector as it is): same heap, same roots, the string survives *)
+Lemma witness_now_survives :
+  exists h', collect witness_heap witness_roots = Some h' /\ get h' 134 = Some witness_str
+             /\ free h' = [].
+Proof. eexists. split; [vm_compute; reflexivity|]. vm_compute. split; reflexivity. Qed.
+
+(* a heap with a closure, an upvalue, a vector, garbage and a function whose nested functions'
+   constants (4 at depth 2) are NOT repeated in its own pool *)
 Definition good_heap : heap :=
-  mkHeap [Some (OString 11); Some (OFunction 12 (FnC [0; 4] [FnC [0] [FnC [4] []]]));
+  mkHeap [Some (OString 11); Some (OFunction 12 (FnC [0] [FnC [] [FnC [4] []]]));
           Some (OClosure 13 1 [3]); Some (OUpvalue 14 (Some 5)); Some (OString 15);
           Some (OVec 16 [0; 6]); Some (OString 17); Some (OString 18); None;
           Some (OArray 19 [7])] [8].
 
 Lemma nonvacuous_lemma :
-  (forall i o, get good_heap i = Some o -> incl (edges_spec o) (edges_code o))
-  /\ reachable_spec good_heap [2] 6
-  /\ exists h', collect good_heap [2] = Some h' /\ live h' = [0; 1; 2; 3; 4; 5; 6] /\ free h' = [9; 7; 8].
+  reachable_spec good_heap [2] 4 /\ reachable_spec good_heap [2] 6 /\ ~ reachable_spec good_heap [2] 7
+  /\ exists h', collect good_heap [2] = Some h' /\ live h' = [0; 1; 2; 3; 4; 5; 6] /\ free h' = [9; 7; 8]
+                /\ get h' 4 = Some (OString 15).
 Proof.
-  split; [|split].
-  - apply premise_b_spec. vm_compute. reflexivity.
-  - apply (mark_closure_any_fuel edges_spec good_heap (fuel_bound edges_spec good_heap) [2]
-             [4; 1; 0; 6; 5; 3; 2]).
-    + vm_compute. reflexivity.
-    + cbn [In]. auto 10.
-  - eexists. split; [vm_compute; reflexivity|]. split; vm_compute; reflexivity.
+  assert (Hm : mark_roots edges_spec (fuel_bound edges_spec good_heap) good_heap [] [2]
+               = Some [4; 1; 0; 6; 5; 3; 2]) by (vm_compute; reflexivity).
+  pose proof (mark_closure_any_fuel edges_spec good_heap _ [2] _ Hm) as Hiff.
+  split; [apply Hiff; cbn [In]; auto 10|].
+  split; [apply Hiff; cbn [In]; auto 10|].
+  split.
+  - intro Hr. apply Hiff in Hr. cbn [In] in Hr. repeat (destruct Hr as [Hr|Hr]; [discriminate|]). exact Hr.
+  - eexists. split; [vm_compute; reflexivity|]. repeat split; vm_compute; reflexivity.
 Qed.
